@@ -4401,6 +4401,9 @@ class ParseCtx:
         for entry in reversed(self.bound_argument_stack):
             if (context, name) in entry:
                 return entry[(context, name)]
+            if any(bound_name == name for _, bound_name in entry):
+                # the innermost macro binds this name to something of another kind: that shadows what its callers bind to it
+                break
         # otherwise, try and find globally 
         if context not in [MacroArgumentKind.MACRO, MacroArgumentKind.LOOP, MacroArgumentKind.HOOK, MacroArgumentKind.OUT, MacroArgumentKind.FINISHCODE, MacroArgumentKind.YIELDCODE]:
             raise UndefinedReferenceError("named expression", from_tree)
